@@ -456,6 +456,11 @@ pub fn flags_arch(kinds: &[String], drop: &[bool]) -> Value {
                 layers.push(json!({"kind": "deconv", "filters": 1, "kernel": [3, 3], "stride": [1, 1], "padding": [1, 1], "act": "tanh", "dropout": d}));
                 spatial = true;
             }
+            // a point-wise convolution (1 x 1 kernel, no padding): the configuration for which fast paths get written
+            "conv1" => {
+                layers.push(json!({"kind": "conv", "filters": 1, "kernel": [1, 1], "stride": [1, 1], "padding": [0, 0], "act": "tanh", "dropout": d}));
+                spatial = true;
+            }
             "pool" => {
                 layers.push(json!({"kind": "pool", "kernel": [1, 1], "stride": [1, 1]}));
                 spatial = true;
@@ -840,7 +845,7 @@ fn net_event(run: usize, spec: &RunSpec) -> Value {
 
 fn driver_archs(rng: &mut Rng) -> Vec<Value> {
     let mut archs = architectures();
-    let kinds_menu = ["dense", "softmax", "conv", "deconv", "pool", "fb", "fbd", "fbs"];
+    let kinds_menu = ["dense", "softmax", "conv", "conv1", "deconv", "pool", "fb", "fbd", "fbs"];
     for _ in 0..4 {
         let k = rng.range(1, 4) as usize;
         let kinds: Vec<String> = (0..k).map(|_| rng.pick(&kinds_menu).to_string()).collect();
@@ -1357,7 +1362,7 @@ pub fn record_optslots(seed: u64, tier: &str, trace: &mut Vec<Value>, rep: &mut 
                                {"kind": "conv", "filters": 1, "kernel": [3, 3], "stride": [1, 1], "padding": [1, 1], "act": "tanh"}]},
                    {"kind": "dense", "out": 2, "act": "linear", "bias": true}],
         "objective": {"kind": "mse"}, "optimizer": {"kind": "adam", "lr": 0.01}}));
-    let kinds_menu = ["dense", "softmax", "conv", "deconv", "pool", "fb", "fbd", "fbs"];
+    let kinds_menu = ["dense", "softmax", "conv", "conv1", "deconv", "pool", "fb", "fbd", "fbs"];
     for _ in 0..(if tier == "thorough" { 30 } else { 6 }) {
         let k = rng.range(1, 4) as usize;
         let kinds: Vec<String> = (0..k).map(|_| rng.pick(&kinds_menu).to_string()).collect();
